@@ -275,19 +275,41 @@ func (c *Ctx) Within(d time.Duration, f func()) (ok bool, dump string) {
 	case <-done:
 		return true, ""
 	case <-t.C:
-		buf := make([]byte, 1<<20)
-		n := runtime.Stack(buf, true)
-		return false, string(buf[:n])
+		d1 := allStacks()
+		// Second sample a little later: identical parked sets mean nothing can make progress.
+		select {
+		case <-done:
+			return true, ""
+		case <-time.After(3 * time.Second * time.Duration(c.Slow)):
+		}
+		d2 := allStacks()
+		if s1 := wedgeSignature(d1); s1 != "" && s1 == wedgeSignature(d2) {
+			return false, wedgeMarker + d2
+		}
+		return false, d2
 	}
 }
 
-// Hang records a bounded-progress failure.  The parent re-runs the case alone with a larger
-// budget and reports it only if it reproduces; otherwise it is inconclusive.
+func allStacks() string {
+	buf := make([]byte, 4<<20)
+	n := runtime.Stack(buf, true)
+	return string(buf[:n])
+}
+
+// Hang records a bounded-progress failure.  With deadlock evidence (see wedge.go) it is a
+// violation "deadlock:<name>" at once; otherwise the parent re-runs the case alone with a larger
+// budget and reports "hang:<name>" only if it reproduces (else inconclusive).
 func (c *Ctx) Hang(name, what, dump string) {
+	key := "hang:" + name
+	if strings.HasPrefix(dump, wedgeMarker) {
+		// Deadlock evidence from two identical dumps: decided here, no reproduction needed.
+		key = "deadlock:" + name
+		what += " (every goroutine in check or inbucket code is parked, identically in two dumps)"
+	}
 	if len(dump) > 60000 {
 		dump = dump[:60000]
 	}
-	c.Violation("hang:"+name, what, map[string]any{"goroutines": dump})
+	c.Violation(key, what, map[string]any{"goroutines": dump})
 }
 
 // TempDir makes a fresh directory under the child's scratch area.
